@@ -471,7 +471,7 @@ def decideDefault (p : Pos) (prevTok : Option Token) (modes : List Mode) (c : Ch
     { tok := r.1, move := r.2, modes := modes }
   else
     match lookupSymbol cs symbolTable with
-    | none => { tok := .error, move := advLine p 1, modes := modes }
+    | none => { tok := .error, move := advLineUtf8 p c.len 1, modes := modes }
     | some (n, sy) =>
       let modes' :=
         if sy = .CurlyOpen ∧ mode = some .templateExpr then .templateInlineMap :: modes
